@@ -5,6 +5,7 @@ import (
 	"go/ast"
 	"go/token"
 	"go/types"
+	"golang.org/x/tools/go/packages"
 	"sort"
 	"strings"
 
@@ -500,10 +501,12 @@ func ruleSubjectTerminal() check.Rule {
 								return true
 							}
 							if id, ok := ast.Unparen(sel.X).(*ast.Ident); ok && objOf(info, id) == rv {
-								if strings.HasPrefix(sel.Sel.Name, "broadcast") && firstNotify == token.NoPos {
-									firstNotify = x.Pos()
-								}
-								if sel.Sel.Name == "unsubscribeAll" {
+								switch subjectHelperKind(m, p, x) {
+								case "broadcast":
+									if firstNotify == token.NoPos {
+										firstNotify = x.Pos()
+									}
+								case "drop-all":
 									drops = true
 								}
 								return true
@@ -546,25 +549,27 @@ func ruleSubjectTerminal() check.Rule {
 					if name, isSub := m.Obj.SubscriptionMethods[model.Callee(info, call)]; !isSub || name != "Add" || len(call.Args) != 1 {
 						return true
 					}
-					lit, ok := ast.Unparen(call.Args[0]).(*ast.FuncLit)
-					if !ok {
-						return true
-					}
-					ast.Inspect(lit.Body, func(x ast.Node) bool {
-						switch y := x.(type) {
-						case *ast.CallExpr:
-							if sel, ok := ast.Unparen(y.Fun).(*ast.SelectorExpr); ok && sel.Sel.Name == "Delete" && fieldSelOf(info, sel.X, rv) != nil {
-								removal = true
-							}
-						case *ast.AssignStmt:
-							for _, l := range y.Lhs {
-								if s := fieldSelOf(info, l, rv); s != nil && s.Sel.Name == "observer" {
+					// the teardown: a literal, a named closure or a method value, and the helpers of the type it calls
+					for _, b := range resolveFuncBodies(m, p, call.Args[0]) {
+						inspectTransitive(m, b.Pkg, b.Body, 3, func(q *packages.Package, x ast.Node) bool {
+							switch y := x.(type) {
+							case *ast.CallExpr:
+								if sel, ok := ast.Unparen(y.Fun).(*ast.SelectorExpr); ok && sel.Sel.Name == "Delete" && (fieldSelOf(q.TypesInfo, sel.X, rv) != nil || recvFieldSel(m, q, sel.X) != nil) {
 									removal = true
 								}
+							case *ast.AssignStmt:
+								for _, l := range y.Lhs {
+									if s := fieldSelOf(q.TypesInfo, l, rv); s != nil && s.Sel.Name == "observer" {
+										removal = true
+									}
+									if s := recvFieldSel(m, q, l); s != nil && s.Sel.Name == "observer" {
+										removal = true
+									}
+								}
 							}
-						}
-						return true
-					})
+							return true
+						})
+					}
 					return true
 				})
 				key := fmt.Sprintf("ro.%s.SubscribeWithContext/removal-teardown", tname)
@@ -876,10 +881,10 @@ func ruleSiblingTable() check.Rule {
 								}
 							}
 							if id, ok := ast.Unparen(sel.X).(*ast.Ident); ok && objOf(info, id) == rv {
-								if strings.HasPrefix(sel.Sel.Name, "broadcast") {
+								switch subjectHelperKind(m, p, x) {
+								case "broadcast":
 									f["broadcast"] = true
-								}
-								if sel.Sel.Name == "unsubscribeAll" {
+								case "drop-all":
 									unsubAllPos = x.Pos()
 								}
 							}
